@@ -13,6 +13,10 @@ import (
 
 var update = flag.Bool("update", false, "rewrite testdata/golden/*.v")
 
+// callees in other packages the fixtures use (always given first)
+var foreign = []string{"fixture/dep:Twice", "fixture/dep:Cfg.Apply", "encoding/binary:bigEndian.Uint16", "encoding/binary:bigEndian.Uint64",
+	"encoding/binary:littleEndian.Uint32", "encoding/binary:littleEndian.Uint64"}
+
 func scanAll(p *Pkg) (*Translator, map[string]*Func) {
 	var names []string
 	for n := range p.Decls {
@@ -21,6 +25,9 @@ func scanAll(p *Pkg) (*Translator, map[string]*Func) {
 	sort.Strings(names)
 	T := New(p, "go_")
 	res := map[string]*Func{}
+	for _, n := range foreign {
+		T.Translate(n)
+	}
 	for progress := true; progress; { // callees first
 		progress = false
 		for _, n := range names {
@@ -54,7 +61,7 @@ func TestBasicTranslates(t *testing.T) {
 func TestGolden(t *testing.T) {
 	names := []string{"AddU8", "AddI8", "ConstShift", "VarShl", "ShlS", "Div", "ConstDiv", "Cmp", "EqB", "Clamp", "Normalize",
 		"Shadow", "Named", "Swap", "Switch", "Ring.Next", "Ring.Len", "Ring.Twice", "Ring.Deep", "Outer", "At", "Tail", "BE16", "AndSafe",
-		"Guard", "Search", "Ring.Search", "Hash", "Find", "RangeAssign", "Forever", "Nested", "LoopSwitch", "Sum", "LoopCall"}
+		"Guard", "Search", "Ring.Search", "Hash", "fixture/dep:Cfg.Apply", "Holder.Scaled", "encoding/binary:bigEndian.Uint16", "UseStd", "Find", "RangeAssign", "Forever", "Nested", "LoopSwitch", "Sum", "LoopCall"}
 	T := New(Load("../testdata", "fixture", "basic"), "go_")
 	for _, n := range names {
 		if f := T.Translate(n); f.Err != nil {
@@ -149,7 +156,10 @@ func TestDifferential(t *testing.T) {
 	sort.Strings(names)
 	// callees first: translate in dependency order by repeating (the validator reports the rest)
 	T := New(Load("../testdata", "fixture", "basic"), "go_")
-	var ordered []string
+	ordered := append([]string{}, foreign...)
+	for _, n := range foreign {
+		T.Translate(n)
+	}
 	done := map[string]bool{}
 	for progress := true; progress; {
 		progress = false
